@@ -1,5 +1,5 @@
 """C10 - generations move forward on every change and only then."""
-from pv import cgen, engc, machine, oracles
+from pv import cgen, engc, machine, oracles, sched
 from pv.runner import Violation
 from pv.props import common as C
 
@@ -52,6 +52,41 @@ _run = run_worker  # noqa: F821
 
 def race_oracle(ctx, svc, snap, start, reqs, race, schedule):
     engc.returned_generation_is_committed(race, start, reqs)
+    # an accepted allocation write bumps the providers it places on and the
+    # consumers it writes, in the transaction that commits it - also when it
+    # got there through the server-side retry
+    for n in sorted(reqs):
+        req, resp = reqs[n], race.responses[n]
+        if not resp.ok or req['op'] not in ('put_allocations',
+                                            'post_allocations', 'reshaper'):
+            continue
+        prev, own, before = start, None, None
+        for (name, kind, d) in race.points:
+            if d is None:
+                continue
+            if name == n and kind == 'txn-end' and \
+                    sched.noids(d) != sched.noids(prev):
+                own, before = d, prev
+            prev = d
+        if own is None:
+            continue
+        for (c, rp, rc, amt) in oracles.placed_amounts(req):
+            if amt > 0 and rp in before.providers and rp in own.providers \
+                    and own.allocations.get((c, rp, rc)) == amt:
+                if not own.providers[rp]['generation'] > \
+                        before.providers[rp]['generation']:
+                    raise Violation(
+                        {'clause': 'allocation-write-without-provider-'
+                                   'generation-increase-under-race',
+                         'op': req['op']}, {'provider': rp, 'request': n})
+        for c in req.get('consumers') or []:
+            x, y = before.consumers.get(c), own.consumers.get(c)
+            if x is not None and y is not None and x['id'] == y['id'] and \
+                    not y['generation'] > x['generation']:
+                raise Violation(
+                    {'clause': 'allocation-write-without-consumer-'
+                               'generation-increase-under-race',
+                     'op': req['op']}, {'consumer': c, 'request': n})
     # no generation of a surviving row ever decreases, under any schedule
     prev = start
     for (_n, _k, d) in race.points:
@@ -72,6 +107,17 @@ def run_worker(ctx):
     # write must still report the generation that write committed)
     engc.run_cases(ctx, cgen.provider_race_case, race_oracle,
                    examples=ctx.pick(3, 40), free=3, splits=6)
+    # once more with the documented option that leaves the server-side
+    # retry of allocation writes a single attempt
+    svc = machine.service()
+    svc.conf.set_override('allocation_conflict_retry_count', 1,
+                          group='placement')
+    try:
+        engc.run_cases(ctx, cgen.provider_race_case, race_oracle,
+                       examples=ctx.pick(2, 20), free=2, splits=4)
+    finally:
+        svc.conf.clear_override('allocation_conflict_retry_count',
+                                group='placement')
     if ctx.idx == 0:
         ctx.stats.extra['paths_required'] = PATHS
 
@@ -81,5 +127,16 @@ _replay_machine = replay  # noqa: F821
 
 def replay(ctx, data):
     if 'reqs' in data:
-        return engc.replay(ctx, race_oracle, data)
+        out = engc.replay(ctx, race_oracle, data)
+        if out:
+            return out
+        # the case may stem from the phase run with a single retry attempt
+        svc = machine.service()
+        svc.conf.set_override('allocation_conflict_retry_count', 1,
+                              group='placement')
+        try:
+            return engc.replay(ctx, race_oracle, data)
+        finally:
+            svc.conf.clear_override('allocation_conflict_retry_count',
+                                    group='placement')
     return _replay_machine(ctx, data)
